@@ -259,6 +259,22 @@ def discharge(site):
             if (sets or cut) and bb not in v.reach([0], avoid=set(cut) | sets):
                 return 'value is Some on every path (tested or just assigned)'
         return None
+    if k == 'div':
+        t = site.term
+        c = v.operand_expr(t['cond'], bb)
+        if c[0] == 'bin' and c[1] == 'Eq':
+            d = fold(c[2])
+            if d is not None and int(d) != 0:
+                return 'division by the non-zero constant %d' % d
+        return None
+    if k == 'time-arith':
+        cs = site.cs
+        if len(cs.args) == 2:
+            dur = cs.arg(0) if site.what.startswith('Duration') else cs.arg(1)
+            why = bounded_duration(v, dur)
+            if why and (not site.what.startswith('Duration') or fold(cs.arg(1)) is not None):
+                return 'duration operand is bounded: ' + why
+        return None
     if k == 'panic':
         # variant mismatch after building the very variant locally
         for g in prims.guard_strs(v, bb):
@@ -273,32 +289,118 @@ def discharge(site):
     return None
 
 
-def dispatch_agreement(F, site):
-    """Variant-mismatch panic in f(packet,..): every caller passes a value it has just tested
-    to be of the expected variant.  Returns reason or None."""
-    v = site.view
-    exp = None
-    argname = None
-    for g in prims.guard_strs(v, site.bb):
-        m = re.match(r"^([\w']+) is ([\w|]+)$", g)
-        if m and (m.group(1) in [v.varnames.get(i) for i in range(1, v.argc + 1)]):
-            adt_names = F.variant_names('mqtt::MqttPacket')
-            allv = set(adt_names.values()) if adt_names else set()
-            missing = allv - set(m.group(2).split('|'))
-            if len(missing) == 1:
-                exp = missing.pop()
-                argname = m.group(1)
-    if exp is None:
+def bounded_duration(view, e, depth=0):
+    """A Duration expression that cannot be large enough to overflow `Instant + d` in practice:
+    built from a <=32-bit integer number of seconds/millis, a constant, or min(_, bounded)."""
+    if depth > 4:
         return None
-    argi = [i for i in range(1, v.argc + 1) if v.varnames.get(i) == argname][0] - 1
+    if e[0] == 'call':
+        fn = e[1]
+        if fn.endswith('Duration::from_secs') or fn.endswith('Duration::from_millis'):
+            a = e[2][0]
+            if fold(a) is not None:
+                return 'constant'
+            inner = a
+            while inner[0] == 'cast':
+                inner = inner[1]
+            ty = _expr_int_width(view, a)
+            if ty is not None and ty <= 32:
+                return 'from_secs/millis of a %d-bit integer' % ty
+            return None
+        if fn.endswith('Ord::min') or fn.endswith('::min'):
+            for a in e[2]:
+                w = bounded_duration(view, a, depth + 1)
+                if w:
+                    return 'min(.., %s)' % w
+        return None
+    if e[0] == 'const':
+        return 'constant'
+    return None
+
+
+def _expr_int_width(view, e):
+    """Bit width of the integer an expression was widened from (through `as` casts)."""
+    widths = {'u8': 8, 'u16': 16, 'u32': 32, 'i8': 8, 'i16': 16, 'i32': 32, 'u64': 64, 'usize': 64, 'u128': 128, 'i64': 64}
+    best = None
+    cur = e
+    for _ in range(6):
+        if cur[0] == 'cast':
+            w = widths.get(cur[2])
+            inner = cur[1]
+            # width of the source of the cast: look at a deeper cast or a field type name hint
+            cur = inner
+            continue
+        if cur[0] == 'bin' and cur[1] in ('Div', 'Shr', 'BitAnd', 'Rem'):
+            cur = cur[2]
+            continue
+        break
+    # source expression: find its declared type through the locals table when it is a place
+    tys = _place_type_hint(view, cur)
+    if not tys:
+        return None
+    ws = []
+    for t in tys:
+        m = re.match(r'^(?:std::option::Option<)?(\w+)>?$', t)
+        if not m or m.group(1) not in widths:
+            return None
+        ws.append(widths[m.group(1)])
+    return max(ws)
+
+
+def _place_type_hint(view, e):
+    """Type of a field place such as `(..).server_keep_alive` from the ADT tables."""
+    if e[0] in ('var', 'proj') and e[2]:
+        fld = e[2][-1]
+        if fld.startswith('.'):
+            name = fld[1:]
+            tys = set()
+            for a in view.facts.adts.values():
+                for vv in a['variants']:
+                    for f in vv['fields']:
+                        if f['name'] == name:
+                            tys.add(f['ty'])
+            return tys
+    return None
+
+
+def dispatch_agreement(F, site):
+    """Variant-mismatch panic in f(.., x, ..) under `x<path> is <all variants but V>`: every
+    caller passes a value for which it has just tested `<passed><path> is V`."""
+    v = site.view
+    argnames = {v.varnames.get(i): i - 1 for i in range(1, v.argc + 1)}
+    _, _, edge = v.graph()
+    dom = v.dominators()
+    if site.bb not in dom:
+        return None
+    cand = None
+    for en in edge:
+        if not (dom[site.bb] >> en & 1):
+            continue
+        a = v.edge_atom(en)
+        if a[0] != 'variant' or a[1][0] != 'var' or a[1][1] not in argnames:
+            continue
+        t = v.blocks[edge[en][0]]['term']
+        op = v.operand_expr(t['op'], edge[en][0])
+        if op[0] != 'discr':
+            continue
+        names = F.variant_names(op[2])
+        if not names:
+            continue
+        missing = set(names.values()) - set(a[2])
+        if len(missing) == 1:
+            cand = (a[1][1], ''.join(a[1][2]), missing.pop())
+    if cand is None:
+        return None
+    argname, path, exp = cand
+    argi = argnames[argname]
     callers = F.callers().get(v.key, [])
     if not callers:
         return None
     for cv, cbb in callers:
-        css = [c for c in cv.calls() if c.bb == cbb]
+        css = [c for c in cv.calls() if c.bb == cbb and c.nfn == norm(v.path)]
         if not css:
             return None
         passed = show(css[0].arg(argi))
-        if not prims.guarded_any(cv, cbb, ['^' + re.escape(passed) + ' is ' + exp + '$']):
+        if not prims.guarded_any(cv, cbb, ['^' + re.escape(passed + path) + ' is ' + exp + '$']):
             return None
-    return 'dispatch agreement: all %d callers test `is %s` on the value they pass' % (len(callers), exp)
+    return 'dispatch agreement: all %d callers test `%s is %s` on the value they pass' % (len(callers), path or 'arg', exp)
